@@ -255,6 +255,70 @@ fn check_non_array(st: &mut Stats) {
     }
 }
 
+/// the slice node itself, hand-built through the public `Ast` and `Expression::new` (the parser always wraps a
+/// slice in a projection; a program that builds trees sees the bare node): arrays keep every selected element
+/// including nulls, any non-array subject gives null, step 0 is an invalid-value error
+fn check_slice_node(st: &mut Stats) {
+    use jmespath::ast::Ast;
+    let subjects = [
+        json!([]), json!([0]), json!([0, null, 2]), json!([0, 1, null, 3, 4]), json!(null), json!(1), json!("abc"), json!(""),
+        json!({"a": 1}), json!({}), json!(true), json!(false), json!([null]), json!([[1], "a", {"b": 2}]),
+    ];
+    let vals: Vec<Option<i32>> = vec![None, Some(-6), Some(-5), Some(-3), Some(-2), Some(-1), Some(0), Some(1), Some(2), Some(3), Some(5), Some(6), Some(i32::MAX), Some(i32::MIN)];
+    let steps = [1, -1, 2, -2, 3, 0, i32::MAX, i32::MIN, 7];
+    for subj in &subjects {
+        let rc = value_to_var(subj);
+        for &a in &vals {
+            for &b in &vals {
+                for &c in &steps {
+                    st.states += 1;
+                    st.transitions += 1;
+                    st.evaluations += 1;
+                    st.validated += 1;
+                    let node = Ast::Slice { offset: 0, start: a, stop: b, step: c };
+                    let wrapped = Ast::Or {
+                        offset: 0,
+                        lhs: Box::new(node.clone()),
+                        rhs: Box::new(Ast::Literal { offset: 0, value: value_to_var(&json!("fallback")) }),
+                    };
+                    let case = json!({"kind": "slice-node", "subject": subj, "start": a, "stop": b, "step": c});
+                    let e = jmespath::Expression::new("", node, &jmespath::DEFAULT_RUNTIME);
+                    let out = run_impl(&e, &rc);
+                    if c == 0 {
+                        if subj.is_array() {
+                            let ok = matches!(&out, Out::SearchErr(e) if crate::implx::classify(e) == crate::implx::IClass::Rt(ErrClass::InvalidValue));
+                            if !ok {
+                                st.violate(viol("C07/step-0", "slice-node", case, "invalid-value error".into(), out.brief()));
+                            }
+                        }
+                        st.outcome("step-0");
+                        continue;
+                    }
+                    let exp = match subj {
+                        Value::Array(items) => Value::Array(slice_indices(items.len(), a.map(|x| x as i64), b.map(|x| x as i64), c as i64).into_iter().map(|i| items[i].clone()).collect()),
+                        _ => Value::Null,
+                    };
+                    if !matches!(&out, Out::Value(v, false) if *v == exp) {
+                        st.violate(viol(if subj.is_array() { "C07/slice-node/wrong-elements" } else { "C07/non-array" }, "slice-node", case.clone(), exp.to_string(), out.brief()));
+                    }
+                    // the node as the left operand of `||`: a null result falls through to the right operand
+                    let e2 = jmespath::Expression::new("", wrapped, &jmespath::DEFAULT_RUNTIME);
+                    let out2 = run_impl(&e2, &rc);
+                    let exp2 = match &exp {
+                        Value::Null => json!("fallback"),
+                        Value::Array(x) if x.is_empty() => json!("fallback"),
+                        other => other.clone(),
+                    };
+                    if !matches!(&out2, Out::Value(v, false) if *v == exp2) {
+                        st.violate(viol(if subj.is_array() { "C07/slice-node/wrong-elements" } else { "C07/non-array" }, "slice-node", case, format!("(node || 'fallback') = {}", exp2), out2.brief()));
+                    }
+                    st.outcome(if subj.is_array() { "slice node on an array" } else { "non-array subject" });
+                }
+            }
+        }
+    }
+}
+
 /// model validation: R-slice against real python3 on a window
 fn python_crosscheck() -> Result<u64, String> {
     let script = r#"
@@ -343,6 +407,7 @@ pub fn run(tier: Tier) -> i32 {
         st = st.merge(sl);
     }
     check_non_array(&mut st);
+    check_slice_node(&mut st);
     match &py {
         Ok(c) => st.count("python3_crosscheck_triples", *c),
         Err(e) => rep.assumptions.push(format!("python3 cross-validation skipped: {}", e)),
@@ -375,6 +440,15 @@ pub fn replay(case: &Value) -> Option<(String, bool)> {
             let r = crate::reval::Eval::builtin().search(&p.tree, &doc);
             let ok = crate::oracle::agrees(&r, &out);
             Some((format!("agrees with the reference: {}", ok), !ok))
+        }
+        "slice-node" => {
+            check_slice_node(&mut st);
+            let want = case.to_string();
+            let v = st.violations.iter().find(|v| v.case.to_string() == want);
+            Some(match v {
+                Some(v) => (format!("expected {} actual {}", v.expected, v.actual), true),
+                None => ("agree".into(), false),
+            })
         }
         "slice-api" => {
             let g = |k: &str| case[k].as_i64();
